@@ -134,6 +134,10 @@ func (h *MultiHandler) CanAccept(msg *Message) bool {
 func (h *MultiHandler) Accept(msg *Message) {
 	h.mtx.Lock()
 	defer h.mtx.Unlock()
+	// Decoding and verifying a peer's message runs third-party decoders and
+	// arithmetic on attacker-chosen values; a panic there must end this session
+	// with an error, not the process of the party.
+	defer h.recoverFromMessage()
 
 	// exit early if the message is bad, or if we are already done
 	if !h.CanAccept(msg) || h.err != nil || h.result != nil || h.duplicate(msg) {
@@ -358,6 +362,17 @@ func (h *MultiHandler) abort(err error, culprits ...party.ID) {
 
 	}
 	close(h.out)
+}
+
+// recoverFromMessage turns a panic raised while processing a message into an
+// anonymous abort of the session (the data that triggered it may have been
+// queued earlier by another sender, so no culprit is named).
+func (h *MultiHandler) recoverFromMessage() {
+	if r := recover(); r != nil {
+		if h.err == nil && h.result == nil {
+			h.abort(fmt.Errorf("panic while processing a message: %v", r))
+		}
+	}
 }
 
 // Stop cancels the current execution of the protocol, and alerts the other users.
